@@ -173,7 +173,7 @@ static void run_cmd(const sim::Cmd &c, sim::Out &out)
     // the bytes of the input are all the parser may depend on: the same input is parsed again with every heap block it gets
     // pre-filled with '"', with a line break and with 0xff (the allocator is ours); a different outcome or message means that
     // memory which is not part of the input - uninitialised, or beyond the end of the text - was read
-    if (layer == 'a' && r != "ALIEN_EXCEPTION" && poison_ok)
+    if ((layer == 'a' || layer == 'b') && r != "ALIEN_EXCEPTION" && poison_ok)
     {
       static const int fills[] = {'"', '\n', 0xff};
       std::string first_r, first_d;
